@@ -15,7 +15,7 @@ from typing import List, Optional
 import xonsh.dirstack as D
 from xonsh.built_ins import XSH
 
-from vf.api import Obligation, Skip, viol
+from vf.api import Gappy, Obligation, Skip, gappy, viol
 
 OPAQUE_NUMBER_FORMAT = True
 
@@ -66,7 +66,7 @@ def _resolve(path, cwd):
     return ("dir", cur)
 
 
-class ModelFS:
+class ModelFS(Gappy):
     def __init__(self, cwd):
         self.cwd = cwd
         self.gone = None  # a directory removed behind the shell's back (chdir to it fails)
@@ -101,7 +101,7 @@ class ModelFS:
                     return HOME + p[1:]
                 return p
 
-        self.path = P
+        self.path = gappy(P, "os_path")
         self.X_OK = 1
 
     def getcwd(self):
